@@ -32,13 +32,23 @@ def main(argv):
     verbose = "-v" in argv
     for q in [a for a in argv if not a.startswith("-")]:
         t0 = time.time()
-        if os.environ.get("PYVC_VACUITY"):
+        if os.environ.get("PYVC_VACUITY") and "::" in q and not q.startswith(("logblocks::", "lemma::")):
             # developer vacuity probe: add the postcondition `1 == 2`; it must NOT be discharged on any path
             _m, _c, _f = idx.function(q)
             _k = reg.lookup(_c.name if _c else None, _f.name, _m.rel)
             if _k is not None and "1 == 2" not in _k.ensures:
                 _k.ensures.append("1 == 2")
-        r = verify_function(idx, reg, q)
+        if q.startswith("logblocks::"):
+            from engine.logblocks import build as _lb_build
+
+            r = _lb_build(q)
+        elif q.startswith("lemma::"):
+            from .verify import FunctionResult
+
+            r = FunctionResult(q)
+            r.obligations = list(reg.lemmas[q[7:]]["build"]())
+        else:
+            r = verify_function(idx, reg, q)
         print("== %s paths=%d obligations=%d gen=%.2fs errors=%s outcomes=%s" % (q, r.paths, len(r.obligations), time.time() - t0, r.errors, r.outcomes))
         jobs = int(os.environ.get("PYVC_JOBS", "1"))
         if jobs > 1:
